@@ -31,6 +31,9 @@ type Commit struct {
 	Et      int  `json:"et"`
 	Signer  int  `json:"signer"`
 	Altered bool `json:"altered"`
+	// "ops": the commit under test is a single-commit bug; "empty": it is a commit without operations (the shape of a merge
+	// commit) on top of a root written by an author without keys
+	Shape string `json:"shape"`
 }
 type Vec struct {
 	Hist   []Ver  `json:"hist"`
@@ -82,6 +85,27 @@ func tree(repo repository.RepoData, blob []byte, et int) repository.Hash {
 	return th
 }
 
+func emptyPackBlob(author identity.Interface, altered bool) []byte {
+	if altered {
+		return []byte(fmt.Sprintf(`{"author":{"id":%q}, "ops":[]}`, author.Id().String()))
+	}
+	return []byte(fmt.Sprintf(`{"author":{"id":%q},"ops":[]}`, author.Id().String()))
+}
+
+func treeNonRoot(repo repository.RepoData, blob []byte, et int) repository.Hash {
+	empty, err := repo.StoreData([]byte{})
+	hx.Must(err)
+	bh, err := repo.StoreData(blob)
+	hx.Must(err)
+	th, err := repo.StoreTree([]repository.TreeEntry{
+		{ObjectType: repository.Blob, Hash: empty, Name: "version-4"},
+		{ObjectType: repository.Blob, Hash: bh, Name: "ops"},
+		{ObjectType: repository.Blob, Hash: empty, Name: fmt.Sprintf("edit-clock-%d", et)},
+	})
+	hx.Must(err)
+	return th
+}
+
 func one(v Vec) (why string) {
 	dir := hx.Scratch("sig")
 	defer os.RemoveAll(dir)
@@ -99,10 +123,20 @@ func one(v Vec) (why string) {
 	}
 	// the author's version history, each version created when the bugs-edit clock shows the prescribed time
 	// (time 0 = the clock does not exist yet: the version records no time for it)
+	// shape "empty": everything happens one tick later, the root of the bug takes the first tick
+	shift := 0
+	var creator *identity.Identity
+	if v.C.Shape == "empty" {
+		shift = 1
+		var err error
+		creator, err = identity.NewIdentityFull(w, "creator", "c@example.org", "", "", nil)
+		hx.Must(err)
+		hx.Must(creator.Commit(w))
+	}
 	var author *identity.Identity
 	for i, ver := range v.Hist {
 		if ver.T > 0 {
-			hx.Must(w.Witness("bugs-edit", lamport.Time(ver.T)))
+			hx.Must(w.Witness("bugs-edit", lamport.Time(ver.T+shift)))
 		}
 		var err error
 		if i == 0 {
@@ -119,20 +153,32 @@ func one(v Vec) (why string) {
 	// the commit under test: a single-commit bug written by hand at logical time et
 	blob := packBlob(author, "the content that was signed", 1_600_000_000)
 	th := tree(w, blob, v.C.Et)
+	var parents []repository.Hash
+	if v.C.Shape == "empty" {
+		blob = packBlob(creator, "root by an author without keys", 1_600_000_000)
+		root, err := w.StoreCommit(tree(w, blob, 1))
+		hx.Must(err)
+		parents = []repository.Hash{root}
+		th = treeNonRoot(w, emptyPackBlob(author, false), v.C.Et+shift)
+	}
 	var head repository.Hash
 	var err error
 	switch {
 	case v.C.Signer == 0:
-		head, err = w.StoreCommit(th)
+		head, err = w.StoreCommit(th, parents...)
 		hx.Must(err)
 	default:
 		sk := key(v.C.Signer)
-		head, err = w.StoreSignedCommit(th, sk.PGPEntity())
+		head, err = w.StoreSignedCommit(th, sk.PGPEntity(), parents...)
 		hx.Must(err)
 		if v.C.Altered {
 			// same signature, other content: take the signed commit apart with go-git and swap the tree
 			blob2 := packBlob(author, "content put in place after signing", 1_600_000_001)
 			th2 := tree(w, blob2, v.C.Et)
+			if v.C.Shape == "empty" {
+				blob2 = blob // the root is what it was: the commit without operations gets another (equivalent) pack
+				th2 = treeNonRoot(w, emptyPackBlob(author, true), v.C.Et+shift)
+			}
 			r, err := gogit.PlainOpen(filepath.Join(dir, "W"))
 			hx.Must(err)
 			c, err := r.CommitObject(plumbing.NewHash(head.String()))
